@@ -461,6 +461,13 @@ pub fn eval_case(case: &Case, tally: &mut Tally) -> Vec<Violation> {
                 match convert(case, target, &text) {
                     Err(e) => fail(format!("{} (target mode {})", e, target.label()), "convert"),
                     Ok((new_require, converted_text)) => {
+                        // a file outside the working directory (or named absolutely): the relative path from it back into the
+                        // working directory needs the directory's own name, which lexical paths do not have. Leaving the
+                        // require as it was (darklua warns) is the refusal; a rewritten require is judged like any other
+                        let outside = case.requiring.starts_with("..") || case.requiring.starts_with('/');
+                        if outside && new_require == case.require {
+                            continue;
+                        }
                         if new_require != case.require {
                             tally.conversions_changed += 1;
                         }
@@ -560,7 +567,7 @@ fn source_requires(mode: &ModeCfg) -> Vec<&'static str> {
     }
 }
 
-const REQUIRING_FILES: &[&str] = &["src/main.lua", "src/init.lua", "src/sub/init.luau", "src/index.lua", "./src/main.lua", "main.luau", "init.luau", "../init.luau", "../up.luau"];
+const REQUIRING_FILES: &[&str] = &["src/main.lua", "src/init.lua", "src/sub/init.luau", "src/index.lua", "./src/main.lua", "main.luau", "init.luau", "../init.luau", "../up.luau", "/abs/src/main.lua"];
 
 fn conversion_targets(env: &Env) -> Vec<ModeCfg> {
     let luau_plain = ModeCfg::Luau { aliases: vec![] };
@@ -590,6 +597,11 @@ fn cases(tier: Tier) -> Vec<Case> {
                 // source-independent requires do not need the second configuration location
                 let uses_sources = !(req.starts_with('.') || req.starts_with('/'));
                 if !env.config_dir.is_empty() && !uses_sources && tier == Tier::Quick {
+                    continue;
+                }
+                // a `.luaurc` is looked up in the ancestors of the requiring file as it is spelled: the one of the working directory
+                // is not an ancestor of a file named by an absolute path (not specified, not judged)
+                if requiring.starts_with('/') && (req.starts_with("@rc") || req.starts_with("rc/")) {
                     continue;
                 }
                 let h = match head(&env, req, &requiring_norm) {
@@ -654,7 +666,7 @@ fn cases(tier: Tier) -> Vec<Case> {
                         files.dedup();
                         // a file outside the working directory: the relative path back into it needs the name of the directory,
                         // which lexical paths do not have, so only the resolution is judged there
-                        let targets = if requiring.starts_with("..") { vec![] } else { targets.clone() };
+                        let targets = targets.clone();
                         out.push(Case { env: env.clone(), requiring: requiring.to_string(), require: req.to_string(), files, targets });
                     }
                 }
@@ -677,7 +689,7 @@ pub fn run(tier: Tier) -> Report {
     report.assumptions = vec![
         "files are in-memory resources (a path may be a file and a directory prefix at once, which a real file system cannot hold); path handling is lexical".to_owned(),
         "a require whose string already ends in .lua/.luau is only looked up as given (documentation lists the candidates for an extensionless example only)".to_owned(),
-        "a requiring file outside the working directory (../init.luau, ../up.luau) is judged for resolution only: the relative path from it back into the working directory needs the directory's name, which lexical in-memory paths do not have".to_owned(),
+        "a requiring file outside the working directory (../init.luau, ../up.luau) or named by an absolute path (/abs/src/main.lua): the relative path from it back into the working directory needs the directory's name, which lexical in-memory paths do not have, so convert_require may leave such a require unchanged (it warns); a require it does rewrite is judged like any other".to_owned(),
         "a `..` segment directly after a source/alias name (leaving the aliased directory) is not a redundant segment and is not judged".to_owned(),
         "precedence between darklua sources/aliases and .luaurc aliases of the same name, nested .luaurc files, and `@self` from a file that is not a module-folder file are not specified and not judged".to_owned(),
         "the roblox require mode needs a Rojo sourcemap and is outside this property's statement".to_owned(),
